@@ -78,6 +78,16 @@ def run_driver(chk: Check, sysd, options, block, n_blocks, mpi=None, name="drv",
         res = driver.afqmc(hd, sysd["ham"], sysd["prop"], sysd["trial"], wd, sampler, observable, options, mpi,
                            init_walkers=init_walkers)
         files = {f: (d / f).read_text() for f in ("samples_raw.dat",) if (d / f).exists()}
+        if (d / "prop_data_0.bin").exists():       # options["save_walkers"]: one pickled prop_data per sampling block
+            import pickle
+            saved = []
+            with open(d / "prop_data_0.bin", "rb") as fh:
+                while True:
+                    try:
+                        saved.append(pickle.load(fh))
+                    except EOFError:
+                        break
+            files["saved_prop_data"] = saved
     return proxies.snapshot(), res, buf.getvalue(), files
 
 
